@@ -554,7 +554,11 @@ func runMuxScenario(t *testing.T, sc *MuxScenario, tape *core.Tape) *muxRun {
 	mr := &muxRun{sc: sc}
 	larking.VerifDrainPools()
 	larking.VerifWarmPools(sc.Knobs.WarmBytes, sc.Knobs.WarmBufs)
-	rand.Seed(int64(tape.Draw(1 << 30)))
+	if !raceEnabled {
+		// the seeded global source is a locked source: in the race build its
+		// mutex would add happens-before edges between requests
+		rand.Seed(int64(tape.Draw(1 << 30)))
+	}
 	synctest.Test(t, func(t *testing.T) {
 		sim := core.NewSim(tape)
 		mr.sim = sim
@@ -716,6 +720,9 @@ func (mr *muxRun) globalInvariants(prop string) *Violation {
 		if rs.panicVal != nil {
 			return violationf(prop, "panic", mr.contextKey(rs)+"@"+larkingFrame(rs.panicStack), "request %d: panic escaped ServeHTTP: %v\n%s", rs.spec.ID, rs.panicVal, trimStack(rs.panicStack))
 		}
+	}
+	if san := mr.sim.Sanity(); len(san) > 0 {
+		return violationf(prop, "concurrent-io-on-one-stream", "sim-sanity", "%s; parked: %v", strings.Join(san, "; "), mr.parked)
 	}
 	if mr.stop != core.StopDone {
 		var stuck []string
